@@ -60,6 +60,12 @@ def run_check(prop, tier, seed, replay=None):
         if gen_dir is None:
             # theorems that do not need the instance can still be checked against an empty gen dir
             pass
+        if gen_dir is not None:
+            # further generated files this property's theorems are stated about (translated from the source on every run)
+            for name, ok, detail in prop.pre_props(ws, ctx, gen_dir):
+                obligations.append((name, ok))
+                if not ok:
+                    broken.append({'kind': 'gen-obligation', 'obligation': name, 'detail': detail[-1500:]})
         try:
             if gen_dir is not None:
                 props_info = core.check_props(ws, prop.id, gen_dir)
@@ -243,6 +249,8 @@ class PropBase:
         return core.DEFAULT_CONFDIR
     def impl_kwargs(self, ctx):
         return {'confdir': ctx.get('confdir', core.DEFAULT_CONFDIR)}
+    def pre_props(self, ws, ctx, gen_dir):
+        return []
     def cases(self, rng, ctx, tier):
         return []
     def run_impl(self, ws, cases, ctx):
